@@ -24,8 +24,14 @@ _m(
     "2**32) given to every model as int or as a fresh np.random.default_rng(seed), and compare three histories: fresh "
     "instance WITHOUT reset, second fresh instance (first call with or without reset=True), first instance after "
     "reconstruct(reset=True); they draw optimiser (adam/adamw/sgd), lr, "
-    "scheduler (none/exp), 2-3 epochs, batch_size in 1..J+2 or None, first call with/without reset, re-run with/without "
-    "re-passing optimizer_params.  A case is NON-TRIVIAL when: batcher - the batch size does not divide n or "
+    "scheduler (none / exp with factor, i.e. gamma derived from the run length / exp with gamma / linear / cyclic / "
+    "plateau), 2-3 epochs, batch_size in 1..J+2 or None; the re-run after reset re-passes both / only optimizer_params / "
+    "only scheduler_params / NEITHER (both are sticky on the models); the second instance gets a drawn PRELUDE before "
+    "the compared run (budget stratified): none (first call with or without reset) | a configuration-only "
+    "reconstruct(num_iters=0) with another batch size | a reconstruct interrupted by an exception raised inside its "
+    "k-th mini-batch, k in {1,1,1,2,3,5,8} (k=1: nothing recorded yet) | a completed run of another length and batch "
+    "size | clone() or from_ptychography() of the never-run object -- each followed by the same run with reset=True, "
+    "which must reproduce the fresh seeded history.  A case is NON-TRIVIAL when: batcher - the batch size does not divide n or "
     "val_ratio > 0; split - the items cannot be split evenly (num_batches does not divide num_items, or max_batch < "
     "num_items does not divide it); invariance - at least two training patterns are certain, J - round(J*val_ratio) >= 2 "
     "(batch size 1 then gives >= 2 batches against the one full batch); determinism - an epoch has >= 2 training batches (so the shuffle order influences the history).  distinct = "
@@ -63,6 +69,11 @@ _m(
         "seed forms: non-negative Python ints of any size and freshly constructed np.random.default_rng(int) objects (what "
         "the RNGMixin / SimpleBatcher setters accept and can re-seed from); already-consumed or spawned generators, "
         "floats and negative seeds are outside the domain",
+        "an interrupted run is modelled by an exception raised from the harness's dset.forward observer (stands for "
+        "Ctrl-C or any error inside a mini-batch); the state after it is only required to be restorable by reset=True.  "
+        "batch_size=None means 'keep the current batch size', so a prelude never changes the batch size when the compared "
+        "run passes None; the configuration-only prelude passes no scheduler_params (exp-with-factor divides by "
+        "num_iters)",
         "every invariance run starts from reconstruct(reset=True); the full batch is run twice first and must agree "
         "bit-for-bit (the property's own reset claim), otherwise that is what is reported",
         "reconstruct(batch_size=None) keeps the instance's current batch size (initially all patterns): the invariance "
